@@ -56,7 +56,7 @@ def lean_term_expr(name: str, c: dict) -> str | None:
     r = len(c["shape"]) if "shape" in c else None
     P = "OV.C08."
     if name == "flatten":
-        return f"{P}flatten.term {r} {li(c['a'])} {li(c['b'])}"
+        return f"{P}flatten.term {lshape(c['shape'])} {li(c['a'])} {li(c['b'])}"
     if name == "unflatten":
         return f"{P}unflatten.term {lshape(c['shape'])} {li(c['dim'])} {lints(c['sizes'])}"
     if name == "view":
@@ -72,7 +72,7 @@ def lean_term_expr(name: str, c: dict) -> str | None:
     if name == "squeeze":
         return f"{P}squeeze.term"
     if name == "squeeze_dim":
-        return f"{P}squeeze_dim.term {r} {li(c['dim'])}"
+        return f"{P}squeeze_dim.term {lshape(c['shape'])} {li(c['dim'])}"
     if name == "unsqueeze":
         return f"{P}unsqueeze.term {li(c['dim'])}"
     if name == "expand":
@@ -127,7 +127,7 @@ def lean_term_expr(name: str, c: dict) -> str | None:
     if name == "mean_dim":
         return f"{P}mean_dim.term {r} {lints(c['dims'])} {lb(c['keep'])}"
     if name in ("amax", "amin"):
-        return f'{P}amax.term "aten_{name}" {lints(c["dims"])} {lb(c["keep"])}'
+        return f'{P}amax.term "{"ReduceMax" if name == "amax" else "ReduceMin"}" {loptl(c["dims"])} {lb(c["keep"])}'
     if name in ("all", "any"):
         return f'{P}all_.term "{"ReduceMin" if name == "all" else "ReduceMax"}" {r}'
     if name in ("all_dim", "any_dim"):
@@ -139,7 +139,7 @@ def lean_term_expr(name: str, c: dict) -> str | None:
     if name == "prod":
         return f"{P}prod.term {lb(c['dtype'] in ('i64', 'i32', 'u8'))}"
     if name == "prod_dim":
-        return f"{P}prod_dim.term {li(c['dim'])} {lb(c['keep'])}"
+        return f"{P}prod_dim.term {r} {li(c['dim'])} {lb(c['keep'])}"
     if name == "cumsum":
         return f"{P}cumsum.term {r} {li(c['dim'])}"
     if name.startswith("avg_pool"):
@@ -151,10 +151,25 @@ def lean_term_expr(name: str, c: dict) -> str | None:
     if name in ("convolution", "conv2d"):
         return (f"{P}conv.term {lshape(c['shape'])} {lshape(c['w'])} {lil(c['st'])} {lil(c['pad'])} {lil(c['dil'])} "
                 f"{lb(c['tr'])} {lints(c['op'])} {c['g']}")
+    if name in ("add", "sub", "add_scalar", "sub_scalar"):
+        other = '"x1"' if name in ("add", "sub") else f"(OV.C08.halfStr OV.C08.DC.{c['dtype2']} {li(c['other2'])})"
+        return f"{P}addsub.term {lb(name.startswith('add'))} OV.C08.DC.{c['dtype2']} {other} {li(c['alpha2'])}"
+    if name == "clamp":
+        return f"{P}clamp.term OV.C08.DC.{c['dtype2']} {lopt(c['lo2'])} {lopt(c['hi2'])}"
+    if name == "clamp_tensor":
+        return f"{P}clamp.termTensor {lb(c['lo'] is not None)} {lb(c['hi'] is not None)}"
+    if name.startswith("create_"):
+        dt = "none" if c["cdt"] is None else f"(some OV.C08.DC.{c['cdt']})"
+        k = name[7:]
+        fn = {"full": "termFull", "zeros": "termZeros", "new_full": "termNewFull", "new_zeros": "termNewZeros"}.get(k)
+        if fn:
+            return f"{P}creation.{fn} {lints(c['size'])} {dt}"
+        fill = {"full_like": "7", "zeros_like": "0", "ones_like": "1"}[k]
+        return f'{P}creation.termLike "{fill}" {dt}'
     if name == "gather":
         return f"{P}gather.term {r} {len(c['idx_shape'])} {li(c['dim'])}"
     if name == "repeat_interleave":
-        return f"{P}repeat_interleave.term {r} {li(c['reps'])} {lopt(c['dim'])}"
+        return f"{P}repeat_interleave.term {lshape(c['shape'])} {li(c['reps'])} {lopt(c['dim'])}"
     if name == "select_scatter":
         return f"{P}select_scatter.term {li(c['dim'])} {li(c['index'])}"
     if name == "slice_scatter":
@@ -246,7 +261,7 @@ def regenerate() -> dict:
     names = []
     for k, ch in enumerate(chunks):
         body = ["import OV.Model.C08View", "import OV.Model.C08Slice", "import OV.Model.C08Repl", "import OV.Model.C08Reduce",
-                "import OV.Model.C08IntArith", "import OV.Model.C08Creation", "import OV.Model.C08Attr", "import OV.Model.C08Misc",
+                "import OV.Model.C08IntArith", "import OV.Model.C08Creation", "import OV.Model.C08Attr", "import OV.Model.C08Misc", "import OV.Model.C08Scalar",
                 "/-! GENERATED by harness/extract_torchlib.py from /repo's working tree — do not edit. -/",
                 "namespace OV.Gen.C08Trace", "",
                 f"/-- (model term, term emitted by the real torch_lib function) — chunk {k}. -/",
